@@ -3,7 +3,8 @@ Coq `show_*` functions in props/c13.py IMPORTS), Coq term printer, and the prope
 (a direct Python statement of C13 applied to what the implementation did)."""
 from vt import core
 
-PRIMS = ("INT", "STRING")
+PRIMS = ("INT", "STRING", "WW")
+MATCH_RULES = ("W", "WW", "WWW")
 
 
 # ------------------------------------------------------------------ grammar generator
@@ -31,7 +32,7 @@ def gen_grammar(r, big=False, imports=False):
         rules["A%d" % i] = {"kind": "abstract", "alts": alts}
 
     def rank(t):
-        if t in PRIMS or t == "W":
+        if t in PRIMS or t in MATCH_RULES:
             return 10 ** 6
         if t.startswith("C"):
             return int(t[1:])
@@ -65,13 +66,14 @@ def gen_grammar(r, big=False, imports=False):
             elif kind in ("ref", "refs"):
                 attrs.append({"name": name, "kind": kind, "type": r.choice(types), "kw": new_kw()})
             elif kind == "prim":
-                attrs.append({"name": name, "kind": "prim", "type": r.choice(["INT", "STRING", "W"]), "kw": new_kw()})
+                attrs.append({"name": name, "kind": "prim", "type": r.choice(["INT", "STRING", "W", "WW", "WWW"]), "kw": new_kw()})
             else:
                 t1, t2 = r.choice(commons[1:]), r.choice(commons[1:])
                 attrs.append({"name": name, "kind": "objtyped", "types": [t1, t2], "kws": [new_kw(), new_kw()]})
         rules[c] = {"kind": "common", "kw": kw("c", ci), "attrs": attrs}
-    rules["W"] = {"kind": "match"}
-    order = commons + abstracts + ["W"]
+    for m in MATCH_RULES:
+        rules[m] = {"kind": "match"}
+    order = commons + abstracts + list(MATCH_RULES)
     if imports:
         rules["Import"] = {"kind": "import"}
         order.append("Import")
@@ -83,7 +85,7 @@ def grammar_text(g):
     for name in g["order"]:
         ru = g["rules"][name]
         if ru["kind"] == "match":
-            out.append("%s: /w[0-9]+/;" % name)
+            out.append({"W": "W: /w[0-9]+/;", "WW": "WW: W ('-' W)?;", "WWW": "WWW: WW '+' WW;"}[name])
         elif ru["kind"] == "import":
             out.append("Import: 'import' importURI=STRING;")
         elif ru["kind"] == "abstract":
@@ -165,7 +167,13 @@ def gen_model(r, g, maxobjs, start=0, extern=(), fill=True):
         if t == "STRING":
             s = r.choice(["s", "ab", "x y", ""])
             return {"prim": "STRING", "text": '"%s"' % s}
-        return {"prim": "W", "text": "w%d" % r.range(0, 9)}
+        w = lambda: "w%d" % r.range(0, 9)  # noqa: E731
+        ww = lambda: (w() + "-" + w()) if r.chance(0.5) else w()  # noqa: E731
+        if t == "W":
+            return {"prim": "W", "text": w()}
+        if t == "WW":
+            return {"prim": "WW", "text": ww()}
+        return {"prim": "WWW", "text": ww() + "+" + ww()}
 
     def obj(rule, depth):
         cnt[0] += 1
@@ -288,7 +296,9 @@ def gen_case(r, thorough=False):
     text = model_text(g, root)
     refs = expected_refs(objs)
     rr = r.split("p")
-    names = [n for n in g["order"] if n != "W"] + ["OBJECT"]
+    names = [n for n in g["order"] if n not in MATCH_RULES] + ["OBJECT"]
+    # match-rule processors: registered on a subset, each appending a fixed suffix to its argument
+    match_reg = {m: rr.choice(["", "!", "~"]) for m in MATCH_RULES if rr.chance(0.7)}
     mode = rr.weighted([("all", 5), ("subset", 4), ("none", 1)])
     if mode == "all":
         reg = list(names)
@@ -331,7 +341,7 @@ def gen_case(r, thorough=False):
     postpone = bad is not None and rr.chance(0.5)
     return {"grammars": {"main.tx": grammar_text(g)}, "main": "main.tx", "model": text, "files": files, "shape": shape, "reg": reg, "postpone_bad": postpone,
             "actions": actions, "user": user, "expect_refs": refs, "expect_error": bad is not None,
-            "match_rules": ["W"]}
+            "match_reg": match_reg}
 
 
 # ------------------------------------------------------------------ canonical printing
@@ -534,6 +544,11 @@ def oracle(case, o, idx_of):
             break
     if o["n_user_objs"] != len([k for k in kinds if k == "init"]):
         bad.append("user-class objects: %d allocated, %d initialised" % (o["n_user_objs"], kinds.count("init")))
+    mreg = {idx_of[n]: suf for n, suf in case.get("match_reg", {}).items() if n in idx_of}
+    mcalls = [(e["p"], e["v"]) for e in o["events"] if e["k"] == "match"]
+    if mcalls != match_expected(o.get("forest", []), mreg):
+        bad.append("match-rule processor calls %r differ from the documented order (children left to right, innermost first) %r"
+                   % (mcalls[:6], match_expected(o.get("forest", []), mreg)[:6]))
     reg = {idx_of[n] for n in case["reg"] if n in idx_of}
     byname = {}
     acc = []
@@ -604,3 +619,33 @@ def oracle(case, o, idx_of):
         if m["final"] != show_value(v2):
             bad.append("final model differs from the documented replacement result: %s vs %s" % (m["final"], show_value(v2)))
     return bad
+
+
+# ------------------------------------------------------------------ match-rule processors
+def coq_ptree(t):
+    if t[0] == "T":
+        return "(PTerm %d %s)" % (t[1], core.coq_str(t[2]))
+    ks = "PNil"
+    for k in reversed(t[2]):
+        ks = "(PCons %s %s)" % (coq_ptree(k), ks)
+    return "(PNode %d %s)" % (t[1], ks)
+
+
+def match_expected(forest, reg):
+    """Documented order: per match value in build order, children left to right, innermost
+    first; a node's processor gets the concatenation of its children's results.
+    reg: {rule index: suffix}.  Returns the list of (rule index, argument)."""
+    calls = []
+
+    def conv(t):
+        if t[0] == "T":
+            arg = t[2]
+        else:
+            arg = "".join(conv(k) for k in t[2])
+        if t[1] in reg:
+            calls.append((t[1], arg))
+            return arg + reg[t[1]]
+        return arg
+    for t in forest:
+        conv(t)
+    return calls
